@@ -162,10 +162,11 @@ func Verif_C21_refund() {
 }
 
 // Refund accounting with concrete prices (gas price and modifier from enumerated lists, so the
-// processing price is a constant and the division in the refund path is by a constant): gas limit and
-// refund symbolic. Covers what the abstract-price harness leaves out: reported gas used <= gas limit and
+// processing price is a constant and the division in the refund path is by a constant; gas limit from an
+// enumerated list as well): the refund is symbolic. Covers what the abstract-price harness leaves out: reported gas used <= gas limit and
 // the fee recomputed from the reported gas used <= full fee.
 var verifC21Prices = []uint64{1000000000, 1000000099, 1999999999, 123456789123}
+var verifC21Limits = []uint64{50000, 51500, 60001, 500000, 1499999999}
 
 func Verif_C21_refundConcretePrice() {
 	ed := &economicsData{minGasLimit: 50000, gasPerDataByte: 1500, minGasPrice: 1000000000, maxGasLimitPerBlock: 1500000000,
@@ -173,7 +174,7 @@ func Verif_C21_refundConcretePrice() {
 	ed.flagPenalizedTooMuchGas.Set()
 	ed.flagGasPriceModifier.Set()
 	ed.builtInFunctionsCostHandler = &verifBuiltInCost{}
-	tx := &transaction.Transaction{GasPrice: verifC21Prices[verifChoice("price", len(verifC21Prices))], GasLimit: verifU64("gasLimit"), Value: big.NewInt(0), Data: make([]byte, verifChoice("dataLen", 2))}
+	tx := &transaction.Transaction{GasPrice: verifC21Prices[verifChoice("price", len(verifC21Prices))], GasLimit: verifC21Limits[verifChoice("limit", len(verifC21Limits))], Value: big.NewInt(0), Data: make([]byte, verifChoice("dataLen", 2))}
 	if ed.CheckValidityTxValues(tx) != nil {
 		verifReach("invalid")
 		return
